@@ -957,7 +957,7 @@ def renderable_constraints(path, env):
     return cs
 
 
-def run_property(prop, tier, targets, extra_targets=()):
+def run_property(prop, tier, targets, extra_targets=(), entry=('constructor', 'rule_list')):
     """shared driver: run the targets, decide the obligations of `prop`, replay the violated ones"""
     from lib.common import Result
     res = Result(prop, 'other')
@@ -966,6 +966,7 @@ def run_property(prop, tier, targets, extra_targets=()):
     lmax = 4 if tier == 'thorough' else 3
     total_paths = total_obs = 0
     classes = {}
+    unsupported = []
     # assume-guarantee across routines: which fields of the transformer may a routine leave changed?  (frame condition)
     Css.HAVOC = ()
     havoc = compute_modifies(mod, res)
@@ -976,7 +977,11 @@ def run_property(prop, tier, targets, extra_targets=()):
     for name in targets:
         fn = TARGETS[name]
         L = lmax if not (name in ('qualified_rule',) and tier == 'thorough') else lmax
-        env, exe, done, obs, dt = fn(mod, L)
+        try:
+            env, exe, done, obs, dt = fn(mod, L)
+        except MirUnsupported as e:
+            unsupported.append((name, str(e)))
+            continue
         res.solver_time += exe.stats['solver_time']
         returned = [q for q in done if q.status == 'returned']
         total_paths += len(done)
@@ -999,7 +1004,11 @@ def run_property(prop, tier, targets, extra_targets=()):
         validate_samples(res, exe, env, returned, name)
     for name in extra_targets:
         if name == 'class_name':
-            env, exe, done, obs, dt = target_class_name(mod)
+            try:
+                env, exe, done, obs, dt = target_class_name(mod)
+            except MirUnsupported as e:
+                unsupported.append(('write_maybe_class_name', str(e)))
+                continue
             res.solver_time += exe.stats['solver_time']
             total_paths += len(done)
             bad, n = decide(exe, obs, res, [prop])
@@ -1086,6 +1095,16 @@ def run_property(prop, tier, targets, extra_targets=()):
                                         'every finished path yields trace obligations pc => predicate that z3 decides; violated ones are rendered as CSS and replayed through from_css against a reference rewrite' % lmax,
                          'obligations': total_obs, 'discharged': res.queries.get('unsat', 0), 'paths': total_paths,
                          'evaluations': total_obs, 'distinct_nontrivial': total_obs})
+    # ---- routines the executor could not run: nothing is decided for them; probe the real code and say so
+    from checks import css_entry
+    for name, why in unsupported:
+        key = {'engine': 'replay', 'harness': name, 'class': 'unsupported'}
+        what = '%s is outside the executor (%s): not decided' % (name, why[:140])
+        if not css_entry.probe_sheets(res, key, what):
+            res.inconc(what + '; the probe sheets show no deviation')
+    # ---- what the routine-level analysis assumes about its start state and about the top-level loop
+    if entry:
+        css_entry.run(res, mod, prop, entry)
     return res
 
 
